@@ -26,7 +26,7 @@ impl KEnv {
 // @harness c03_l1_map_step
 // @props C03 C18 C12
 // @tier quick
-// @cost 60
+// @cost 17
 // @timeout 900
 // @needs L0
 // @desc the tail of ensure_l2_offset (from the cluster allocation to the end, lifted verbatim): the L1 entry that publishes a new L2 table is exactly COPIED | allocated cluster (cluster aligned, reserved bits clear), the cluster is registered as new (to be zeroed before first use), the L1 block is queued dirty and need_flush is set; other L1 entries are untouched
@@ -78,7 +78,7 @@ fn c03_l1_map_step() {
 // @harness c03_single_write_mapping
 // @props C03 C18 C01
 // @tier quick
-// @cost 100
+// @cost 69
 // @timeout 1200
 // @needs M1 L1
 // @desc make_single_write_mapping + alloc_and_map_cluster (whole bodies, lock / lookup / allocator shimmed) on an L2 slice with arbitrary content: if the cluster is writable in place nothing changes and nothing is allocated; otherwise exactly one cluster is allocated, registered as new, and the addressed entry becomes COPIED | that cluster; every other entry of the slice is untouched; whenever the slice changed it is marked dirty AND need_flush is set; the entry returned is the one now stored
